@@ -71,6 +71,27 @@ def gen_setty(rng, depth=3):
     return ("set", (("int", 1), ("str", "a")))
 
 
+QUOTE_PIECES = ["'", '"', "\\", " ", "\n", "a", "b c", "\u00e9", '"""', "'''", "\t", "{", "#"]
+
+
+def gen_layout_sensitive(rng):
+    """values whose literal a formatter likes to touch (quote choice, docstring handling, number spelling):
+    the formatter may change the spelling but never the value"""
+    def text():
+        return "".join(rng.choice(QUOTE_PIECES) for _ in range(rng.randint(1, 6)))
+
+    r = rng.random()
+    if r < 0.6:
+        return ("str", text())
+    if r < 0.7:
+        return ("bytes", text().encode("utf-8"))
+    if r < 0.85:
+        return ("list", tuple(("str", text()) for _ in range(rng.randint(1, 3))))
+    if r < 0.93:
+        return ("float", rng.choice([1e100, 1e-7, -0.0, 1.5e300, 123456789.125]))
+    return ("dict", ((("str", text()), ("str", text())),))
+
+
 def variant_expr(t, rng):
     """equal value, different construction route / insertion order of sets"""
     k, p = t
@@ -96,7 +117,7 @@ def make_programs(seed, n):
     progs = []
     for i in range(n):
         rng = random.Random(f"{seed}/{PROP}/prog/{i}")
-        trees = [gen_setty(rng) for _ in range(8)]
+        trees = [gen_setty(rng) for _ in range(8)] + [gen_layout_sensitive(rng) for _ in range(3)]
         ops = [rng.choice(["eq", "eq", "eq", "in", "getitem"]) for _ in trees]
         variants = {}
         for vname in ("display", "constructed"):
